@@ -135,6 +135,10 @@ def env_case(ctx, case) -> None:
 
 
 def run(ctx) -> None:
+    if ctx.tier == "thorough" and ctx.shard == ctx.nshards - 1:
+        # the repository's own tests as one more workload for the contracts (vmon/contracts.py)
+        from ..contracts_suite import run_repo_tests
+        run_repo_tests(ctx, ['incomplete_cooperative/tests/test_gameplay.py', 'incomplete_cooperative/tests/test_gym.py'], 'compute,env')
     rng = ctx.rng
     quick = ctx.tier == "quick"
     comps = list(BOUNDS.keys())
@@ -178,6 +182,10 @@ def run(ctx) -> None:
 
 
 def replay(ctx, case) -> None:
+    if case.get("kind") == "repo-tests":
+        from ..contracts_suite import run_repo_tests
+        run_repo_tests(ctx, case["files"], case["contracts"])
+        return
     if "actions" in case:
         env_case(ctx, case)
     else:
